@@ -14,12 +14,14 @@ import (
 	"github.com/osmosis-labs/osmosis/v31/zzverif/core"
 )
 
-type plan struct {
-	Configs []Config
-	Alpha   Alphabet
-	Depth   int
-	Seeds   []string
-	Stores  []string
+// run is one exhaustive exploration: every history of at most Depth symbols of the alphabet from every seed state,
+// in one configuration.
+type run struct {
+	Cfg   Config
+	Seeds []string
+	Depth int
+	Alpha *Alphabet
+	Main  bool // counts for depth_completed
 }
 
 var (
@@ -38,25 +40,31 @@ var (
 var hashedStores = []string{"acc", "bank", "distribution", "downtimedetector", "epochs", "gamm", "ibc", "incentives", "mint",
 	"poolincentives", "poolmanager", "protorev", "staking", "twap", "txfees"}
 
-func planFor(tier string) plan {
-	p := plan{
-		Stores:  hashedStores,
-		Configs: []Config{cfgZero, cfgDefault, cfgPair},
-		Seeds:   []string{"bal2", "bal2x", "bal3", "stable2", "stable2s", "stable3", "chain", "worn"},
-		Depth:   3,
-		Alpha: Alphabet{
-			Creates:  []Op{{K: "create", A: "B", C: 0}, {K: "create", A: "A", C: 4}},
-			MaxPools: 3, LPPools: 3, Ticks: []int{0, 1},
-		},
+var (
+	seeds8 = []string{"bal2", "bal2x", "bal3", "stable2", "stable2s", "stable3", "chain", "worn"}
+	// base alphabet: 21 symbols in a one-pool state, 25 with two pools, 27 with three (one more when the joiner holds shares)
+	alphaBase = Alphabet{Creates: []Op{{K: "create", A: "B", C: 0}, {K: "create", A: "A", C: 4}}, MaxPools: 3, LPPools: 3, Ticks: []int{0, 1}}
+	// wide alphabet: + amount-1 swap, 3-hop exact-out, reversed single hops, joins by the creator / of 1 share unit / of the
+	// other denom, single-asset join and exit for exact amounts on the first pool too, a foreign denom sent to a pool,
+	// two more pool templates, a fourth pool, the 1h+1s block boundary
+	alphaWide = Alphabet{Creates: []Op{{K: "create", A: "B", C: 0}, {K: "create", A: "A", C: 4}, {K: "create", A: "B", C: 2}, {K: "create", A: "A", C: 5}},
+		MaxPools: 4, LPPools: 3, Ticks: []int{0, 1, 2}, Tiny: true, Out3: true, Wide: true}
+)
+
+func planFor(tier string) []run {
+	if tier != "thorough" {
+		return []run{
+			{Cfg: cfgZero, Seeds: seeds8, Depth: 3, Alpha: &alphaBase, Main: true},
+			{Cfg: cfgDefault, Seeds: seeds8, Depth: 3, Alpha: &alphaBase, Main: true},
+			{Cfg: cfgPair, Seeds: seeds8, Depth: 3, Alpha: &alphaBase, Main: true},
+		}
 	}
-	if tier == "thorough" {
-		p.Depth = 4
-		p.Configs = append(p.Configs, cfgMixed)
-		p.Seeds = append(p.Seeds, "bal4", "bal8")
-		p.Alpha.Out3 = true
-		p.Alpha.Tiny = true
+	return []run{
+		{Cfg: cfgMixed, Seeds: append(append([]string{}, seeds8...), "bal4", "bal8"), Depth: 3, Alpha: &alphaWide},
+		{Cfg: cfgDefault, Seeds: seeds8, Depth: 4, Alpha: &alphaBase, Main: true},
+		{Cfg: cfgPair, Seeds: seeds8, Depth: 4, Alpha: &alphaBase, Main: true},
+		{Cfg: cfgZero, Seeds: []string{"bal2x", "stable2s", "chain", "worn"}, Depth: 4, Alpha: &alphaBase, Main: true},
 	}
-	return p
 }
 
 // seedOps drives the world from genesis to a named pool-bearing state through the same Apply path as the explorer,
@@ -183,15 +191,20 @@ func main() {
 		defer pprof.StopCPUProfile()
 	}
 	if v := os.Getenv("VERIF_C02_DEPTH"); v != "" { // development aid
-		fmt.Sscan(v, &pl.Depth)
+		for i := range pl {
+			fmt.Sscan(v, &pl[i].Depth)
+		}
 	}
 	allSeen := core.NewSeen()
 	var cfgNames []string
 	runs := map[string]interface{}{}
 	sizes := map[string]interface{}{}
-	for ci, cfg := range pl.Configs {
+	alphas := map[string]interface{}{}
+	planned, completed, mainDepth := 0, 0, 0
+	for ci, rn := range pl {
+		cfg := rn.Cfg
 		w := NewWorld(cfg, r)
-		w.Stores = pl.Stores
+		w.Stores = hashedStores
 		dev.newWorld(w)
 		cfgNames = append(cfgNames, cfg.Name)
 		if ci == 0 && f.Shard == 0 {
@@ -204,12 +217,15 @@ func main() {
 			w2.Env.Close()
 		}
 		sc := &core.Scenario[Op, *Ledger]{
-			App: w.App, Stores: pl.Stores, Config: cfg,
-			Enabled: w.Enabled(&pl.Alpha),
+			App: w.App, Stores: hashedStores, Config: cfg,
+			Enabled: w.Enabled(rn.Alpha),
 			Apply:   w.Apply,
 			Check:   w.Check,
 		}
-		for _, seed := range pl.Seeds {
+		bz, _ := json.Marshal(rn.Alpha)
+		alphas[cfg.Name] = string(bz)
+		for _, seed := range rn.Seeds {
+			planned++
 			if f.Expired() {
 				r.Exhaustive = false
 				break
@@ -232,9 +248,13 @@ func main() {
 				continue
 			}
 			ex := core.NewExplorer(sc, f, r)
-			ex.Run(seed, ctx, l, pl.Depth)
-			name := fmt.Sprintf("%s | %s | depth %d", cfg.Name, seed, pl.Depth)
-			runs[name] = 1
+			before := r.Exhaustive
+			ex.Run(seed, ctx, l, rn.Depth)
+			if before && r.Exhaustive {
+				completed++
+			}
+			name := fmt.Sprintf("%s | %s", cfg.Name, seed)
+			runs[name] = fmt.Sprintf("depth %d", rn.Depth)
 			sizes[name] = len(sc.Enabled(ctx, l, 0))
 			for k := range ex.Seen {
 				var h [32]byte
@@ -243,21 +263,39 @@ func main() {
 				allSeen.Add(h)
 			}
 		}
+		if rn.Main && (mainDepth == 0 || rn.Depth < mainDepth) {
+			mainDepth = rn.Depth
+		}
 		w.Env.Close()
 	}
 	allSeen.Dump(f.HashOut)
 	dev.report()
+	// the explorer reports the smallest depth of any run; the wide-alphabet runs of the thorough tier are deliberately
+	// one level shallower than the main runs and are listed separately in coverage.runs
+	if r.Exhaustive && mainDepth > 0 {
+		r.DepthCompleted = mainDepth
+	}
+	r.Extra["sum_runs_planned"] = planned
+	r.Extra["sum_runs_completed"] = completed
 	r.Extra["configurations"] = cfgNames
-	bz, _ := json.Marshal(pl.Alpha)
-	r.Extra["alphabet_parameters"] = string(bz)
+	r.Extra["alphabet_parameters"] = alphas
 	r.Extra["alphabet_size_in_seed_state"] = sizes
-	r.Extra["seeds"] = pl.Seeds
 	r.Extra["runs"] = runs
+	r.Extra["hashed_stores"] = hashedStores
 	var tn []string
 	for i, t := range templates {
 		tn = append(tn, fmt.Sprintf("%d: %s", i, t.Name))
 	}
 	r.Extra["pool_templates"] = tn
+	var sd []string
+	for _, n := range append(append([]string{}, seeds8...), "bal4", "bal8") {
+		x := n + ":"
+		for _, o := range seedOps(n) {
+			x += " " + o.String()
+		}
+		sd = append(sd, x)
+	}
+	r.Extra["seed_states"] = sd
 	r.Outcomes = int64(len(r.Rejected) + 1)
 	core.Finish(f, r)
 }
